@@ -192,6 +192,7 @@ static void reb_saba_corrector_step(struct reb_simulation* r, double cc){
         default:
             return;
     };
+    REB_VERIF(r, "saba_corr_e", 1, cc);
 }
 
 void reb_integrator_saba_part1(struct reb_simulation* const r){
